@@ -21,6 +21,12 @@ import (
 func ssautilAllFunctions(p *ssa.Program) map[*ssa.Function]bool { return ssautil.AllFunctions(p) }
 
 func main() {
+	if _, err := os.Stat("/opt/veriftools/go1.26.8/bin/go"); err == nil {
+		os.Setenv("PATH", "/opt/veriftools/go1.26.8/bin:"+os.Getenv("PATH"))
+	}
+	os.Setenv("GOFLAGS", "-mod=mod")
+	os.Setenv("GOPROXY", "off")
+	os.Setenv("GOTOOLCHAIN", "local")
 	if len(os.Args) < 2 {
 		fmt.Fprintln(os.Stderr, "usage: gosym check -prop <id> -tier quick|thorough [-harness name]")
 		os.Exit(2)
